@@ -49,6 +49,8 @@ def gates(ctx, thorough):
     r = tlc.check_model("MC_Asm", "MC_Asm3" if thorough else "MC_Asm", workers=12, heap="12g", timeout=3000)
     ctx.add_model("MC_Asm3" if thorough else "MC_Asm", r, {"invariants": ["ReachInv", "CertOK", "MustOK", "LayoutInv", "Bounded"]})
     if thorough:
+        r = tlc.check_model("MC_AsmSizing", "MC_AsmSizingCT", workers=14, heap="24g", timeout=3000)
+        ctx.add_model("MC_AsmSizingCT(n<=3, label+-constant: 13 constants around +-128)", r, {"invariants": ["WidthSafe", "Decided", "NoLivelock"]})
         r = tlc.check_model("MC_AsmSizing", "MC_AsmSizing4", workers=14, heap="24g", timeout=3000)
         ctx.add_model("MC_AsmSizing(n<=4)", r, {"invariants": ["WidthSafe", "Decided", "NoLivelock"]})
 
